@@ -1,4 +1,5 @@
 import MalVerif.PropsGen.C04
+import MalVerif.Props.C17
 /-!
 # C17 for the *translated* visitor: a rejected file makes the compilation fail as a whole
 
@@ -12,6 +13,12 @@ visitor (`Py/GenVisitor/Visitor.lean`); the include callback of the visitor is `
   fails, the translated `visitMal` of the including file raises, whatever else the file declares — there is no partial
   specification.
 * `translated_include_of_rejected_file_fails`: the two together, through `compileGen`.
+* **`translated_malformed_file_fails`** (general, by transfer of `parse_exact` / `reject_iff` through
+  `C04.translated_compile_is_model`): if the root file, or any file it includes directly or transitively
+  (`Includes`), is missing, does not lex, or has a token list the grammar relation `DDecls` does not derive completely
+  (`Malformed`), the translated compile raises — at every include depth; `translated_compile_only_derivable` (the
+  converse for the root: a result means the root's tokens are derivable as a whole, with that meaning);
+  `translated_single_file_exact` (a file without includes compiles iff it lexes and is derivable).
 -/
 namespace MalVerif.PropsGen.C17
 open MalVerif MalVerif.Mal MalVerif.Py.Visitor MalVerif.Py.GenVisitor
@@ -118,5 +125,128 @@ example : compileGen (fun n => if n = "b.mal" then some "category Sys { } }" els
   have hlen : (treeMalRest [.kwCategory, .id "Sys", .lcurly, .rcurly, .rcurly]).map (fun r => r.2.length) = some 1 := by decide
   rw [h] at hlen
   simp at hlen
+
+
+/-! ### the general statement: any malformed file on the include path makes the whole compilation fail -/
+
+/-- `Includes files n q`: `q` is `n`, or a file that `n` includes directly or transitively (following the `include`
+declarations of files that parse) -/
+inductive Includes (files : String → Option String) : String → String → Prop
+  | refl (n : String) : Includes files n n
+  | step {n src p q : String} {decls : List Decl} : files n = some src → parseSource src = some decls →
+      Decl.incl p ∈ decls → Includes files p q → Includes files n q
+
+/-- a file the compiler must reject: missing, not lexable, or its token list is not derivable as a whole by the grammar
+(`DDecls ts [] ds` for no `ds`: a syntax error somewhere, or input left over after the last declaration) -/
+def Malformed (files : String → Option String) (q : String) : Prop :=
+  files q = none ∨ ∃ src, files q = some src ∧ (lex src = none ∨ ∃ ts, lex src = some ts ∧ ¬ ∃ ds, DDecls ts [] ds)
+
+/-- the model: a malformed file on the include path leaves the root without a specification, at every include depth -/
+theorem compileFile_none_of_malformed (files : String → Option String) (root q : String) (hinc : Includes files root q)
+    (hbad : Malformed files q) : ∀ f, compileFile files f root = none := by
+  induction hinc with
+  | refl n =>
+    intro f
+    rcases hbad with h | ⟨src, hs, h⟩
+    · exact MalVerif.C17.missing_file_has_no_spec files f n h
+    · apply MalVerif.C17.bad_file_has_no_spec files f n src hs
+      rcases h with h | ⟨ts, hl, h⟩
+      · exact parseSource_of_lex_none h
+      · rw [parseSource_of_lex hl]; exact (MalVerif.C17.reject_iff ts).mpr h
+  | @step n src p q decls hf hp hin _ ih =>
+    intro f
+    cases f with
+    | zero => exact compileFile_zero files n
+    | succ f => exact MalVerif.C17.include_error_propagates files f n src p decls hf hp hin (ih hbad f)
+
+/-- **A malformed file makes the translated compile fail as a whole.**  If the root file or any file on its include
+path is missing, has a lexical error, or has a token list that `declaration*` does not derive completely, then
+`MalCompiler.compile` with the translated visitor raises — whatever else the files declare and at whatever include
+depth; there is no partial specification. -/
+theorem translated_malformed_file_fails (files : String → Option String) (root q : String)
+    (hinc : Includes files root q) (hbad : Malformed files q) (f : Nat) :
+    ∃ e, compileGen files f (.str root) = .error e := by
+  have h := C04.translated_compile_is_model files f root
+  rw [compileFile_none_of_malformed files root q hinc hbad f] at h
+  exact h
+
+/-- conversely, a result means the root's text lexes and its whole token list is derivable by the grammar with the
+meaning the specification was assembled from -/
+theorem translated_compile_only_derivable (files : String → Option String) (f : Nat) (root : String) (v : V)
+    (h : compileGen files f (.str root) = .ok v) :
+    ∃ src ts ds, files root = some src ∧ lex src = some ts ∧ DDecls ts [] ds := by
+  obtain ⟨s, hs, -⟩ := (C04.translated_compile_ok_iff files f root v).mp h
+  cases f with
+  | zero => rw [compileFile_zero] at hs; cases hs
+  | succ f =>
+    rw [compileFile_succ] at hs
+    cases hf : files root with
+    | none => rw [hf] at hs; cases hs
+    | some src =>
+      rw [hf] at hs
+      simp only [Option.bind_some] at hs
+      cases hl : lex src with
+      | none => rw [parseSource_of_lex_none hl] at hs; cases hs
+      | some ts =>
+        rw [parseSource_of_lex hl] at hs
+        cases hp : parseMal ts with
+        | none => rw [hp] at hs; cases hs
+        | some ds => exact ⟨src, ts, ds, rfl, hl, (MalVerif.C17.parse_exact ts ds).mp hp⟩
+
+/-- **exactly**, for a file without `include`: the translated compile returns a specification iff the text lexes and
+its whole token list is derivable; the result is the rendering of the assembled declarations -/
+theorem translated_single_file_exact (files : String → Option String) (f : Nat) (root src : String) (ts : List Tok)
+    (hf : files root = some src) (hl : lex src = some ts) :
+    (∀ ds, DDecls ts [] ds → (∀ d ∈ ds, noIncl d = true) →
+      ∃ s, assemble (fun _ => none) ds = some s ∧ compileGen files (f+1) (.str root) = .ok (rSpec s)) ∧
+    ((¬ ∃ ds, DDecls ts [] ds) → ∃ e, compileGen files (f+1) (.str root) = .error e) := by
+  constructor
+  · intro ds hd hno
+    have hp := (MalVerif.C17.parse_exact ts ds).mpr hd
+    have h := C04.translated_compile_is_model files (f+1) root
+    rw [compileFile_succ, hf] at h
+    simp only [Option.bind_some, parseSource_of_lex hl, hp] at h
+    rw [assemble_noIncl _ (fun _ => none) ds hno] at h
+    have hsome : ∃ s, assemble (fun _ => none) ds = some s := by
+      have key : ∀ (ds : List Decl), (∀ d ∈ ds, noIncl d = true) → ∀ s0, ∃ s, ds.foldlM (assembleStep fun _ => none) s0 = some s := by
+        intro ds
+        induction ds with
+        | nil => intro _ s0; exact ⟨s0, rfl⟩
+        | cons d ds ih =>
+          intro hno s0
+          rw [List.foldlM_cons]
+          have hd := hno d List.mem_cons_self
+          cases d with
+          | incl p => simp [noIncl] at hd
+          | define k v => exact ih (fun d hd => hno d (List.mem_cons_of_mem _ hd)) _
+          | category n md as => exact ih (fun d hd => hno d (List.mem_cons_of_mem _ hd)) _
+          | associations l => exact ih (fun d hd => hno d (List.mem_cons_of_mem _ hd)) _
+      obtain ⟨s, hs⟩ := key ds hno {}
+      exact ⟨finishSpec s, by simp [assemble, hs]⟩
+    obtain ⟨s, hs⟩ := hsome
+    rw [hs] at h
+    exact ⟨s, hs, h⟩
+  · intro hno
+    exact translated_malformed_file_fails files root root (.refl root) (Or.inr ⟨src, hf, Or.inr ⟨ts, hl, hno⟩⟩) (f+1)
+
+deriving instance DecidableEq for MalVerif.Mal.Decl
+
+/-- the hypotheses are satisfiable, two levels deep: `root.mal` includes `a.mal`, which includes `b.mal`, which ends in
+a surplus `}` — `b.mal` is `Malformed` (its tokens are not derivable: `parseMal` rejects them), it is on the include
+path of `root.mal`, and the translated compile of `root.mal` raises at every depth -/
+def demoFiles : String → Option String := fun n =>
+  if n = "root.mal" then some "#id: \"x\" include \"a.mal\""
+  else if n = "a.mal" then some "include \"b.mal\" category Sys { }"
+  else if n = "b.mal" then some "category Net { } }" else none
+
+example (f : Nat) : ∃ e, compileGen demoFiles f (.str "root.mal") = .error e := by
+  apply translated_malformed_file_fails demoFiles "root.mal" "b.mal"
+  · exact .step (src := "#id: \"x\" include \"a.mal\"") (decls := [.define "id" "x", .incl "a.mal"]) (p := "a.mal")
+      (by decide) (by decide) (by simp)
+      (.step (src := "include \"b.mal\" category Sys { }") (decls := [.incl "b.mal", .category "Sys" [] []]) (p := "b.mal")
+        (by decide) (by decide) (by simp) (.refl _))
+  · refine Or.inr ⟨"category Net { } }", by decide, Or.inr ⟨[.kwCategory, .id "Net", .lcurly, .rcurly, .rcurly], by decide, ?_⟩⟩
+    rw [← MalVerif.C17.reject_iff]
+    decide
 
 end MalVerif.PropsGen.C17
